@@ -100,6 +100,12 @@ CATALOGUE = [
     ('C06', 'unicast-also-processed-by-neighbours', 'bacpypes/netservice.py',
      "            processLocally = (npdu.npduDADR.addrNet == self.local_adapter.adapterNet) \\\n                and (npdu.npduDADR.addrAddr == self.local_adapter.adapterAddr.addrAddr)",
      "            processLocally = (npdu.npduDADR.addrNet == self.local_adapter.adapterNet)"),
+    ('C12', 'devinfo-old-address-key-deleted-unconditionally', 'bacpypes/app.py',
+     "            if (cache_address is not None) and (self.cache.get(cache_address) is device_info):\n                del self.cache[cache_address]",
+     "            if (cache_address is not None) and (cache_address in self.cache):\n                del self.cache[cache_address]"),
+    ('C12', 'retry-does-not-look-the-peer-up-again', 'bacpypes/appservice.py',
+     "        if not self.device_info:\n            self.device_info = self.ssmSAP.deviceInfoCache.get_device_info(self.pdu_address)\n            if self.device_info:\n                self.ssmSAP.deviceInfoCache.acquire(self.device_info)",
+     "        if False and not self.device_info:\n            self.device_info = self.ssmSAP.deviceInfoCache.get_device_info(self.pdu_address)\n            if self.device_info:\n                self.ssmSAP.deviceInfoCache.acquire(self.device_info)"),
     # ---- C13
     ('C13', 'bbmd-rebroadcasts-directed-broadcast', 'bacpypes/bvllservice.py',
      "            elif pdu.pduDestination.addrType == Address.localBroadcastAddr:\n                if _debug: BIPBBMD._debug(\"    - directed broadcast message\")\n",
